@@ -16,41 +16,53 @@ from gherkin.token import Token  # noqa: E402
 from gherkin.errors import CompositeParserException, ParserException, UnexpectedTokenException, UnexpectedEOFException  # noqa: E402
 
 
-class KLine:
-    indent = 0
+from gherkin.gherkin_line import GherkinLine  # noqa: E402
+from gherkin.token_matcher import TokenMatcher  # noqa: E402
 
+# a representative English line of each kind: code under test that looks at the line itself (its text, its indentation) finds an ordinary line
+REPRESENTATIVE = {"FeatureLine": "Feature: f", "RuleLine": "Rule: r", "BackgroundLine": "Background: b", "ScenarioLine": "Scenario: s", "ExamplesLine": "Examples: e",
+                  "StepLine": "Given s", "DocStringSeparator": '"""', "TableRow": "| a |", "TagLine": "@t", "Comment": "# c", "Empty": "", "Language": "# language: en",
+                  "Other": "other"}
+
+
+class KLine(GherkinLine):
     def __init__(self, kind):
+        super().__init__(REPRESENTATIVE.get(kind, kind), 1)
         self.kind = kind
-
-    def get_line_text(self, *_):
-        return self.kind
 
 
 def reads(kind, t):
     return kind == t or (t == "Other" and kind != "EOF") or (t == "Comment" and kind == "Language")
 
 
-class StubMatcher:
+class StubMatcher(TokenMatcher):
+    """answers by line kind; a complete TokenMatcher otherwise (dialect, reset, ...), so that code under test may use any attribute of a matcher"""
     def __init__(self):
+        super().__init__()
         self.ops = 0
-
-    def reset(self):
-        pass
 
     def __getattr__(self, name):
         if not name.startswith("match_"):
             raise AttributeError(name)
-        t = name[6:]
+        return _stub(name[6:]).__get__(self)
 
-        def m(token):
-            self.ops += 1
-            kind = "EOF" if token.eof() else token.line.kind
-            ok = reads(kind, t)
-            if ok:
-                token.matched_type = t
-                token.location["column"] = 1
-            return ok
-        return m
+
+def _stub(t):
+    def m(self, token):
+        self.ops += 1
+        kind = "EOF" if token.eof() else token.line.kind
+        ok = reads(kind, t)
+        if ok:
+            token.matched_type = t
+            token.location["column"] = 1
+        return ok
+    m.__name__ = "match_" + t
+    return m
+
+
+for _t in ("EOF", "Empty", "Comment", "TagLine", "FeatureLine", "RuleLine", "BackgroundLine", "ScenarioLine", "ExamplesLine", "StepLine", "DocStringSeparator", "TableRow",
+           "Language", "Other"):
+    setattr(StubMatcher, "match_" + _t, _stub(_t))
 
 
 class StubScanner:
